@@ -33,6 +33,7 @@ type Prog struct {
 	ghostFuns map[string]*ghostFun
 	heapVarTypes map[string]types.Type
 	autoContracts map[string]*Contract
+	boxedCache map[*FuncInfo]map[types.Object]bool
 }
 
 type FuncInfo struct {
@@ -83,7 +84,7 @@ func loadProg(repo string) (*Prog, error) {
 		typeIDs: map[string]int{}, strLits: map[string]string{}, modsets: map[string]map[string]bool{},
 		ghostFields: map[string]map[string]string{}, repoDir: repo, chanSpecs: map[string]*ChanSpec{},
 		sentinels: map[string]bool{}, ghostFuns: map[string]*ghostFun{}, heapVarTypes: map[string]types.Type{},
-		autoContracts: map[string]*Contract{},
+		autoContracts: map[string]*Contract{}, boxedCache: map[*FuncInfo]map[types.Object]bool{},
 	}
 	for _, pk := range pkgs {
 		if len(pk.Errors) > 0 {
@@ -395,4 +396,15 @@ func (p *Prog) nilSlice(sort string) *Term {
 	cn := "arr0_" + sortIdent(es)
 	p.reg.Fun(cn, nil, as)
 	return p.reg.sMk(sort, App(cn, as), IntLit(0), IntLit(0), IntLit(0), tTrue)
+}
+
+func (p *Prog) prefixOfType(t types.Type) string {
+	t = types.Unalias(t)
+	if pt, ok := t.(*types.Pointer); ok {
+		t = types.Unalias(pt.Elem())
+	}
+	if n, ok := t.(*types.Named); ok && n.Obj().Pkg() != nil && strings.HasSuffix(n.Obj().Pkg().Path(), "/mocks") {
+		return "mocks."
+	}
+	return ""
 }
